@@ -4,4 +4,7 @@ package props
 import (
 	_ "verif/htlab/internal/props/c01"
 	_ "verif/htlab/internal/props/c02"
+	_ "verif/htlab/internal/props/c06"
+	_ "verif/htlab/internal/props/c08"
+	_ "verif/htlab/internal/props/c19"
 )
